@@ -504,7 +504,7 @@ class Unit:
                 inner = hbody[1:-1].strip('\n') if hbody.startswith('{') and hbody.endswith('}') else None
                 if inner is None:
                     continue
-                heads = (['self.%s' % h] if has_self else []) + ['Self::%s' % h, h]
+                heads = (['self.%s' % h, '$id_recv.%s' % h] if has_self else []) + ['Self::%s' % h, h]
                 for head in heads:
                     pat = rsx.Pattern(head + '($*args)')
                     while True:
@@ -521,6 +521,13 @@ class Unit:
                         args = split_top(binds.get('args', ''))
                         if len(args) != len(plain):
                             break
+                        inner_here = inner
+                        recv = binds.get('recv')
+                        if recv and recv != 'self':
+                            # method call on another simple receiver: the helper's `self` is that variable
+                            if recv in [pn for (_, pn, _) in plain] or re.search(r'\blet\s+(?:mut\s+)?%s\b' % re.escape(recv), inner):
+                                break
+                            inner_here = re.sub(r'\bself\b', recv, inner)
                         pre = ''
                         for (mu, pn, ty), av in zip(plain, args):
                             if av.strip() == pn and not mu:
@@ -534,14 +541,14 @@ class Unit:
                         # template declares at anchors inside it stay visible - unless one of its locals would shadow a
                         # name the caller uses afterwards
                         rest = body[b:]
-                        locals_ = set(re.findall(r'\blet\s+(?:mut\s+)?([A-Za-z_][A-Za-z_0-9]*)', inner)) | \
+                        locals_ = set(re.findall(r'\blet\s+(?:mut\s+)?([A-Za-z_][A-Za-z_0-9]*)', inner_here)) | \
                             {pn for (mu, pn, ty), av in zip(plain, args) if not (av.strip() == pn and not mu)}
                         is_stmt = rest.lstrip().startswith(';') and re.search(r'[;{}]\s*$', body[:a].rstrip() + ' ' if body[:a].rstrip() else ';')
                         clash = any(re.search(r'\b%s\b' % re.escape(n), rest) for n in locals_)
                         if is_stmt and not clash and '->' not in flat[k:]:
-                            body = body[:a] + pre + '\n' + inner + '\n' + rest.lstrip()[1:]
+                            body = body[:a] + pre + '\n' + inner_here + '\n' + rest.lstrip()[1:]
                         else:
-                            body = body[:a] + '{ ' + pre + '\n' + inner + '\n }' + body[b:]
+                            body = body[:a] + '{ ' + pre + '\n' + inner_here + '\n }' + body[b:]
                         self.inlined.append((fs.selector, h))
                         changed = True
             if not changed:
